@@ -677,6 +677,7 @@ func newGenTree(r *RNG, kt KeyType, val string, lim int) *genTree {
 }
 
 type genOpts struct {
+	churnBias bool // statement-point batches: every independent-trees run is a pool-churn run
 	tier   string
 	domain string
 	bits32 bool
